@@ -838,6 +838,9 @@ impl<Context: Send + Sync + 'static> RpcModule<Context> {
 							Err(_) => return,
 						};
 
+						#[cfg(jsonrpsee_verif)]
+						crate::verif_hooks::point("server:sub:close_notif:before_send").await;
+
 						match response {
 							SubscriptionCloseResponse::Notif(msg) => {
 								let json = sub_message_to_json(msg, &sub_id, method);
